@@ -28,7 +28,7 @@ PROPS['C02'] = dict(
     domain=['table + special tokens fit u32', 'wf(): no special spelling is also a regular token (configuration precondition)'],
     bounded_probe=dict(label='merge_bytes(via tokenize/de_tokenize)', file='src/tokenization.rs', line=1368,
                        what='the assumed contract of merge_bytes through the public API: every emitted id is a vocabulary id, and decoding the ids (special tokens ignored on both sides) returns the text without its trailing whitespace, as well-formed UTF-8',
-                       bound='7 merge tables (multi-level, overlapping, whitespace-prefixed, multi-byte merges) x {no limit, truncating max_vocab_size} x every text of at most 5 pieces from {a, b, c, space, U+00E4, newline} (130 634 cases)'),
+                       bound='7 merge tables (multi-level, overlapping, whitespace-prefixed, multi-byte merges) x {no limit, truncating max_vocab_size} x {no prefix/suffix, <bos>/<eos>} x texts of at most 5 pieces from {a, b, c, space, U+00E4, newline} (all without prefix/suffix, every 4th with)'),
 )
 
 PROPS['C04'] = dict(
